@@ -69,7 +69,7 @@ mut("prefixed-build-includelength-uses-data-len-twice", "C01", C,
     "        if self.includelength:\n            length += self.lengthfield._sizeof(context, path)\n        self.lengthfield._build(length, stream, context, path)",
     "        if self.includelength and length:\n            length += self.lengthfield._sizeof(context, path)\n        self.lengthfield._build(length, stream, context, path)",
     "Prefixed(includelength=True) build forgets the length field's own size for an empty payload")
-mut("nullstripped-strip-partial-always", "C02", C,
+mut("nullstripped-strip-partial-always", "C03", C,
     "            if tailunit and data[-tailunit:] == pad[:tailunit]:\n                end -= tailunit\n",
     "            if tailunit:\n                end -= tailunit\n", "NullStripped with a multi-byte pad drops any trailing partial unit, not only a padding prefix")
 mut("stream-read-accepts-longer", "C06", C,
@@ -96,7 +96,7 @@ mut("enum-decode-duplicate-first-wins", "C13", C,
     "        self.decmapping = {v:EnumIntegerString.new(v,k) for k,v in mapping.items()}\n",
     "        self.decmapping = {}\n        for k,v in mapping.items():\n            self.decmapping.setdefault(v, EnumIntegerString.new(v,k))\n",
     "Enum with duplicate values: the first label wins on parse instead of the last (documented by tests? no)")
-mut("greedyrange-build-swallow", "C02", C,
+mut("greedyrange-build-swallow", "C03", C,
     "                buildret = self.subcon._build(e, stream, context, path)\n                if not discard:\n                    retlist.append(buildret)\n            return retlist\n        except StopFieldError:\n            pass",
     "                buildret = self.subcon._build(e, stream, context, path)\n                if not discard:\n                    retlist.append(buildret)\n            return retlist\n        except (StopFieldError, RangeError):\n            pass",
     "GreedyRange build silently stops at an element that raises RangeError")
